@@ -137,6 +137,31 @@ def grid_case(draw, formats, tier, tolerances=None):
     return {"cfg": cfg, "sources": sources}
 
 
+def css_name_rows(formats):
+    """Enumerated: every CSS colour keyword once as a solid fill (and once as a gradient stop where the format has gradients),
+    ten per glyph on a 100-unit grid, for each listed format. The reference reads the names from PIL's table (A41)."""
+    from ..gen_svg import CSS_NAMES
+
+    for fmt in formats:
+        grads = not ("colr_0" in fmt or fmt in ("glyf", "cff", "cff2"))
+        for at in range(0, len(CSS_NAMES), 30):
+            chunk = CSS_NAMES[at:at + 30]
+            sources = []
+            for g in range(0, len(chunk), 10):
+                nodes = []
+                for j, nm in enumerate(chunk[g:g + 10]):
+                    x, y = 5.0 + 18.0 * (j % 5), 10.0 + 40.0 * (j // 5)
+                    cmds = [["M", x, y], ["L", x + 14.0, y], ["L", x + 14.0, y + 25.0 + j], ["L", x, y + 25.0 + j], ["Z"]]
+                    fill = {"k": "solid", "c": nm}
+                    if grads and j % 2:
+                        fill = {"k": "lin", "units": "user", "x1": x, "y1": y, "x2": x + 14.0, "y2": y, "spread": "pad", "gt": None,
+                                "stops": [[0.0, nm, 1.0], [1.0, "#102030", 1.0]]}
+                    nodes.append({"t": "p", "d": cmds, "fill": fill, "op": 1.0, "tag": "own:css"})
+                sources.append({"model": {"vb": [0.0, 0.0, 100.0, 100.0], "nodes": nodes}, "cps": [0xE000 + len(sources)]})
+            yield {"cfg": {"upem": 1000, "ascender": 800, "descender": -200, "width": 1000, "linegap": 0, "color_format": fmt, "transform": [1, 0, 0, 1, 0, 0],
+                           "reuse_tolerance": 0.1, "clipbox_quantization": None, "keep_glyph_names": True, "pretty_print": False}, "sources": sources}
+
+
 @st.composite
 def paint_grid(draw, bbox):
     from ..gen_svg import gradient_paint
@@ -345,6 +370,10 @@ def overlay_case(draw, formats, tier, tolerances=None):
     if layout.endswith("lone"):
         sources.append({"model": {"vb": vb, "nodes": [lone]}, "cps": [0xE002]})
     return {"cfg": cfg, "sources": sources}
+
+
+def enumerate_cases(tier):
+    yield from css_name_rows(["glyf_colr_1"])
 
 
 def cases(tier):
